@@ -285,7 +285,7 @@ class BlobE57Replay(AbsReaderReplay):
         info = dict(pre={k: (len(v) if isinstance(v, bytes) else v) for k, v in pre.items()}, rust=drv)
         pan = native_panicked(out)
         if claim_name == "no panic":
-            return (pan is not None and "pre_offset" in kv), "native: " + (pan or "no panic"), info
+            return (pan is not None and "pre_offset" in kv), "native: " + (pan or ("no panic" if "pre_offset" in kv else "the native driver did not run (compile error?): " + out[-300:].replace("\n", " "))), info
         if pan or "post_offset" not in kv:
             return False, "native run did not complete: " + (pan or out[-600:]), info
         try:
